@@ -9,7 +9,7 @@ Open Scope list_scope.
 (* type loadBalancer struct { upstreams []Upstream; nextIndex int }   manager.go:36-39 *)
 Record lb := { ups : list N; nxt : nat }.
 
-(* &loadBalancer{}   manager.go:123 *)
+(* &loadBalancer{}   manager.go:120 *)
 Definition lb_empty : lb := {| ups := []; nxt := 0 |}.
 
 (* func (lb *loadBalancer) Add(u)   manager.go:41-43 *)
@@ -24,7 +24,7 @@ Fixpoint remove_first (u : N) (l : list N) : option (list N) :=
 
 (* func (lb *loadBalancer) Remove(u) bool   manager.go:45-58.
    Result: new balancer and Go's return value ("the balancer is now empty").
-   When the last upstream is removed nextIndex is left as it is (line 51-53 returns before the modulo). *)
+   When the last upstream is removed nextIndex is left as it is (lines 51-53 return before the modulo). *)
 Definition lb_remove (u : N) (b : lb) : lb * bool :=
   match remove_first u (ups b) with
   | None => (b, match ups b with [] => true | _ => false end)
